@@ -920,6 +920,14 @@ class AttrParser(BaseParser):
         type_shape = list(type.get_shape())
         type_num_values = math.prod(type_shape)
 
+        # The element type needs a packed representation (e.g. not f80, f128 or i128)
+        try:
+            type.element_type.compile_time_size
+        except NotImplementedError:
+            self.raise_error(
+                f"Dense literals of element type {type.element_type} are not supported"
+            )
+
         if dense_contents is None:
             # Empty case
             if type_num_values != 0:
@@ -1500,6 +1508,10 @@ class AttrParser(BaseParser):
                 except OverflowError:
                     self.raise_error(
                         f"hexadecimal float literal out of range for type {type}"
+                    )
+                except NotImplementedError:
+                    self.raise_error(
+                        f"hexadecimal float literals of type {type} are not supported"
                     )
                 return FloatAttr(next(type.iter_unpack(raw)), type)
             try:
